@@ -171,6 +171,7 @@ func (c *symConn) LocalAddr() net.Addr {
 func (c *symConn) RemoteAddr() net.Addr {
 	return symAddr{net.JoinHostPort(c.remote.String(), "40000")}
 }
+
 // write deadlines are honoured (a Write at or after the deadline fails, as net.Conn documents);
 // read deadlines are not modelled (corebgp sets none)
 func (c *symConn) SetDeadline(t time.Time) error      { c.wdl = t; return nil }
